@@ -219,7 +219,7 @@ Definition rev_items (v : value) : option (list value) :=
 
 Theorem reverse_involutive_values v r : ~ KnownRev v -> f_reverse v = Ok r ->
   match rev_items v with
-  | Some xs => r = VIter LzUnsized (rev xs) /\ f_reverse r = Ok (VIter LzUnsized xs)
+  | Some xs => r = VIter LzSized (rev xs) /\ f_reverse r = Ok (VIter LzSized xs)
   | None => f_reverse r = Ok v
   end.
 Proof.
@@ -293,7 +293,7 @@ Qed.
 
 Theorem items_values v :
   match v with
-  | VMap kvs => f_items v = Ok (VIter LzUnsized (map pair_value kvs))
+  | VMap kvs => f_items v = Ok (VIter LzSized (map pair_value kvs))
   | _ => f_items v = Err E_InvalidOperation
   end.
 Proof. destruct v; reflexivity. Qed.
